@@ -181,34 +181,23 @@ Proof.
   destruct (kids 0 (r_toks r)) as [k e]. apply safe_if; [apply safe_returns | apply safe_iter_end].
 Qed.
 
-Lemma rcpt_loop_guarded k e tm : safe (rcpt_loop false k e tm).
+Lemma rcpt_loop_safe k e tm : safe (rcpt_loop k e tm).
 Proof.
   induction k as [|c k IH]; cbn [rcpt_loop]; [apply safe_iter_end|].
   destruct c; [|exact IH]. apply safe_if; [apply safe_returns | exact IH].
 Qed.
 
-Lemma receipts_guarded_safe r : safe (receipts_handle false r).
+Lemma receipts_handle_safe r : safe (receipts_handle r).
 Proof.
   unfold receipts_handle. destruct (r_toks r) as [|t l]; [apply safe_err|].
-  destruct (kids 0 l) as [k e]. apply rcpt_loop_guarded.
+  destruct (kids 0 l) as [k e]. apply rcpt_loop_safe.
 Qed.
 
-Lemma rcpt_loop_no_wedge u k e tm : mem CBlocked (rcpt_loop u k e tm) = false.
-Proof.
-  induction k as [|c k IH]; cbn [rcpt_loop]; [apply safe_iter_end|].
-  destruct c.
-  - destruct (_ || _); [reflexivity | exact IH].
-  - destruct u; [reflexivity | exact IH].
-Qed.
-
-(* the witness: a message whose first child is character data *)
+(* the witness of the pinned tree's panic: a message whose first child is character data *)
 Definition receipts_witness : rd :=
   mkrd [TStart (mkname (str "jabber:client") (str "message")) []; TChar (str "text");
         TStart (mkname (str "urn:xmpp:receipts") (str "request")) []; TEnd (mkname (str "urn:xmpp:receipts") (str "request"));
         TEnd (mkname (str "jabber:client") (str "message"))] TmEOF.
-
-Lemma receipts_unguarded_panics : mem CPanic (receipts_handle true receipts_witness) = true.
-Proof. vm_compute. reflexivity. Qed.
 
 Lemma ibb_iq_no_panic e start : no_panic (ibb_iq e start).
 Proof. unfold ibb_iq. destruct start; try reflexivity. destruct (_ && _); reflexivity. Qed.
@@ -221,36 +210,32 @@ Qed.
 
 (* ---- every component, under the condition its environment must meet ---- *)
 
-Definition comp_cond (sites : list site) (c : comp) (e : env) : bool :=
+Definition comp_cond (c : comp) (e : env) : bool :=
   match c with
   | HHistory | HIbbIQ => e_ready e
-  | HReceipts => negb (receipts_unguarded sites)
   | _ => true
   end.
 
-Lemma run_comp_safe sites c e start rs : comp_cond sites c e = true -> safe (run_comp sites c e start rs).
+Lemma run_comp_safe c e start rs : comp_cond c e = true -> safe (run_comp c e start rs).
 Proof.
   intro H. destruct c; cbn [run_comp comp_cond] in *;
     first [ apply safe_returns | apply safe_ok
           | apply history_ready_safe; exact H
           | apply ibb_iq_ready; exact H
+          | apply receipts_handle_safe
           | apply carbons_handle_safe | apply blocklist_handle_safe | apply unmarshal_iq_safe | apply ping_send_safe
           | apply upload_slot_safe | apply items_pages_safe | apply iter_decoding_safe | apply pubsub_fetch_safe
           | apply bookmarks_fetch_safe | apply commands_execute_safe | apply iter_plain_safe
-          | apply carbons_unwrap_safe | apply forward_unwrap_safe | idtac ].
-  destruct (receipts_unguarded sites); [discriminate | apply receipts_guarded_safe].
+          | apply carbons_unwrap_safe | apply forward_unwrap_safe ].
 Qed.
 
-(* components whose sources were repaired for this property need no condition at all for panics *)
-Definition repaired (c : comp) : bool :=
-  match c with HReceipts => false | _ => true end.
-
-Lemma run_comp_no_panic sites c e start rs : repaired c = true -> no_panic (run_comp sites c e start rs).
+(* no component panics, whatever its environment and input *)
+Lemma run_comp_no_panic c e start rs : no_panic (run_comp c e start rs).
 Proof.
-  intro H. destruct c; try discriminate; cbn [run_comp];
+  destruct c; cbn [run_comp];
     first [ apply history_no_panic | apply ibb_iq_no_panic
           | apply safe_no_panic;
-            first [ apply safe_returns | apply safe_ok
+            first [ apply safe_returns | apply safe_ok | apply receipts_handle_safe
                   | apply carbons_handle_safe | apply blocklist_handle_safe | apply unmarshal_iq_safe | apply ping_send_safe
                   | apply upload_slot_safe | apply items_pages_safe | apply iter_decoding_safe | apply pubsub_fetch_safe
                   | apply bookmarks_fetch_safe | apply commands_execute_safe | apply iter_plain_safe
@@ -259,7 +244,7 @@ Qed.
 
 (* ---- Serve ---- *)
 
-Definition inv_cond (sites : list site) (i : inv) : bool := comp_cond sites (i_comp i) (i_env i).
+Definition inv_cond (i : inv) : bool := comp_cond (i_comp i) (i_env i).
 
 Lemma existsb_false_of_all {A} (f : A -> bool) l : (forall x, In x l -> f x = false) -> existsb f l = false.
 Proof.
@@ -267,24 +252,36 @@ Proof.
   cbn [existsb]. rewrite (H x (or_introl eq_refl)). apply IH. intros y Hy. apply H. right. exact Hy.
 Qed.
 
-Lemma serve_returns sites script :
-  (forall el i, In el script -> In i el -> inv_cond sites i = true) ->
-  forall o, In o (serve_may sites script) -> o = Returned.
+Lemma serve_returns script :
+  (forall el i, In el script -> In i el -> inv_cond i = true) ->
+  forall o, In o (serve_may script) -> o = Returned.
 Proof.
   induction script as [|el rest IH]; intros Hc o Ho; cbn [serve_may] in Ho.
   - destruct Ho as [<-|[]]. reflexivity.
-  - assert (Hp : existsb (fun i => mem CPanic (run_inv sites i)) el = false).
+  - assert (Hp : existsb (fun i => mem CPanic (run_inv i)) el = false).
     { apply existsb_false_of_all. intros i Hi.
-      apply (run_comp_safe sites (i_comp i) (i_env i) (i_start i) (i_rds i)). apply (Hc el i (or_introl eq_refl) Hi). }
-    assert (Hb : existsb (fun i => mem CBlocked (run_inv sites i)) el = false).
+      apply (run_comp_safe (i_comp i) (i_env i) (i_start i) (i_rds i)). apply (Hc el i (or_introl eq_refl) Hi). }
+    assert (Hb : existsb (fun i => mem CBlocked (run_inv i)) el = false).
     { apply existsb_false_of_all. intros i Hi.
-      apply (run_comp_safe sites (i_comp i) (i_env i) (i_start i) (i_rds i)). apply (Hc el i (or_introl eq_refl) Hi). }
+      apply (run_comp_safe (i_comp i) (i_env i) (i_start i) (i_rds i)). apply (Hc el i (or_introl eq_refl) Hi). }
     rewrite Hp, Hb in Ho. cbn [app] in Ho. destruct Ho as [<-|Ho]; [reflexivity|].
     apply IH; [|exact Ho]. intros el' i Hel Hi. apply (Hc el' i); [right; exact Hel | exact Hi].
 Qed.
 
+(* Serve never panics, whatever the script, the routing and the environments *)
+Lemma serve_never_panics script : ~ In Panicked (serve_may script).
+Proof.
+  induction script as [|el rest IH]; cbn [serve_may]; intro H.
+  - destruct H as [H|[]]. discriminate.
+  - assert (Hp : existsb (fun i => mem CPanic (run_inv i)) el = false).
+    { apply existsb_false_of_all. intros i _. apply run_comp_no_panic. }
+    rewrite Hp in H. cbn [app] in H. apply in_app_or in H. destruct H as [H|H].
+    + destruct (existsb _ el); [destruct H as [H|[]]; discriminate | destruct H].
+    + destruct H as [H|H]; [discriminate | exact (IH H)].
+Qed.
+
 Lemma serve_wedge_witness :
-  In Wedged (serve_may [] [[mkinv HHistory (mkenv [str "q1"] false [] true) (TChar [])
+  In Wedged (serve_may [[mkinv HHistory (mkenv [str "q1"] false [] true) (TChar [])
      [mkrd [TStart (mkname [] (str "message")) []; TStart (mkname (str "urn:xmpp:mam:2") (str "result")) [at_ (str "queryid") (str "q1")]] TmEOF]]]).
 Proof. vm_compute. left. reflexivity. Qed.
 
@@ -315,15 +312,17 @@ Proof.
   pose proof sites_all_covered as Hall. rewrite forallb_forall in Hall. apply Hall. exact H.
 Qed.
 
-(* in the files repaired for this property nothing dangerous is left: no
-   unchecked assertion, no Must call, no unguarded nil start element, no bare send *)
+(* in the files repaired for this property the only operations of a dangerous
+   kind (unchecked assertion, Must call, unguarded nil start element, bare send)
+   are the ones listed with their justification: an assertion on a token the
+   calling application supplies, a send on a channel that has room for it *)
 Lemma owned_sites_clean :
-  forallb (fun s => negb (owned s && dangerous_kind (s_kind s))) generated_sites = true.
+  forallb (fun s => negb (owned s && dangerous_kind (s_kind s)) || justified s) generated_sites = true.
 Proof. vm_compute. reflexivity. Qed.
 
-(* every site tagged as a known defect is the one the model carries a flag for *)
-Lemma known_sites_are_flagged :
-  forallb (fun m => match snd m with SKnown => site_loose_eqb receipts_site (fst m) | _ => true end) modelled_sites = true.
+Lemma owned_dangerous_sites :
+  map (fun s => (s_func s, s_kind s)) (filter (fun s => owned s && dangerous_kind (s_kind s)) generated_sites)
+  = [(str "Handler.HandleMessage", KSend); (str "Handler.SendMessage", KAssert)].
 Proof. vm_compute. reflexivity. Qed.
 
 (* ---- the statements of Properties.v ---- *)
@@ -335,9 +334,9 @@ Definition helper_or_function (c : comp) : bool :=
   | _ => false
   end.
 
-Lemma helpers_safe sites c e start rs :
+Lemma helpers_safe c e start rs :
   helper_or_function c = true ->
-  mem CPanic (run_comp sites c e start rs) = false /\ mem CBlocked (run_comp sites c e start rs) = false.
+  mem CPanic (run_comp c e start rs) = false /\ mem CBlocked (run_comp c e start rs) = false.
 Proof.
   intro H. apply run_comp_safe. destruct c; try discriminate; reflexivity.
 Qed.
@@ -372,65 +371,45 @@ Lemma np_carbons r : mem CPanic (carbons_handle r) = false /\ mem CBlocked (carb
 Proof. apply carbons_handle_safe. Qed.
 Lemma np_blocklist start r : mem CPanic (blocklist_handle start r) = false /\ mem CBlocked (blocklist_handle start r) = false.
 Proof. apply blocklist_handle_safe. Qed.
+Lemma np_receipts r : mem CPanic (receipts_handle r) = false /\ mem CBlocked (receipts_handle r) = false.
+Proof. apply receipts_handle_safe. Qed.
 
-Lemma np_receipts_partial sites e start rs :
-  receipts_unguarded sites = false ->
-  mem CPanic (run_comp sites HReceipts e start rs) = false /\ mem CBlocked (run_comp sites HReceipts e start rs) = false.
-Proof. intro H. apply run_comp_safe. cbn [comp_cond]. rewrite H. reflexivity. Qed.
+(* the repaired receipts handler on the input that panicked the pinned one: the
+   text is skipped, the request is answered *)
+Lemma receipts_witness_returns : receipts_handle receipts_witness = returns.
+Proof. vm_compute. reflexivity. Qed.
 
-Lemma np_receipts_refuted sites e start :
-  receipts_unguarded sites = true -> exists r, mem CPanic (run_comp sites HReceipts e start [r]) = true.
-Proof.
-  intro H. exists receipts_witness. cbn [run_comp first_rd]. rewrite H. exact receipts_unguarded_panics.
-Qed.
-
-Lemma nw_ibb_partial sites e start rs :
-  mem CPanic (run_comp sites HIbbIQ e start rs) = false /\
-  (e_ready e = true -> mem CBlocked (run_comp sites HIbbIQ e start rs) = false).
+Lemma nw_ibb_partial e start rs :
+  mem CPanic (run_comp HIbbIQ e start rs) = false /\
+  (e_ready e = true -> mem CBlocked (run_comp HIbbIQ e start rs) = false).
 Proof.
   split; [apply ibb_iq_no_panic|]. intro H. apply (ibb_iq_ready e start H).
 Qed.
 
-(* the unconditional statement, and why it cannot hold as such *)
-Definition no_panic_statement : Prop :=
-  forall sites c e start rs, mem CPanic (run_comp sites c e start rs) = false.
-
-Lemma no_panic_statement_refuted : ~ no_panic_statement.
-Proof.
-  intro H. specialize (H [receipts_site] HReceipts (mkenv [] true [] true) (TChar []) [receipts_witness]).
-  vm_compute in H. discriminate.
-Qed.
-
+(* the unconditional no-wedge statement, and why it cannot hold as such *)
 Definition no_wedge_statement : Prop :=
-  forall sites c e start rs, mem CBlocked (run_comp sites c e start rs) = false.
+  forall c e start rs, mem CBlocked (run_comp c e start rs) = false.
 
 Lemma no_wedge_statement_refuted : ~ no_wedge_statement.
 Proof.
   intro H.
-  specialize (H [] HHistory (mkenv [str "q1"] false [] true) (TChar [])
+  specialize (H HHistory (mkenv [str "q1"] false [] true) (TChar [])
     [mkrd [TStart (mkname [] (str "message")) []; TStart (mkname (str "urn:xmpp:mam:2") (str "result")) [at_ (str "queryid") (str "q1")]] TmEOF]).
   vm_compute in H. discriminate.
 Qed.
 
-Lemma receipts_no_wedge sites e start rs : mem CBlocked (run_comp sites HReceipts e start rs) = false.
-Proof.
-  cbn [run_comp]. unfold receipts_handle. destruct (r_toks (first_rd rs)); [reflexivity|].
-  destruct (kids 0 l) as [k en]. apply rcpt_loop_no_wedge.
-Qed.
-
-Lemma no_wedge_partial sites c e start rs :
-  mem CBlocked (run_comp sites c e start rs) = true -> e_ready e = false /\ (c = HHistory \/ c = HIbbIQ).
+Lemma no_wedge_partial c e start rs :
+  mem CBlocked (run_comp c e start rs) = true -> e_ready e = false /\ (c = HHistory \/ c = HIbbIQ).
 Proof.
   intro H.
   assert (Hc : c = HHistory \/ c = HIbbIQ \/ (c <> HHistory /\ c <> HIbbIQ)).
   { destruct c; auto; right; right; split; discriminate. }
   destruct Hc as [->|[->|[H1 H2]]].
   - split; [|auto]. destruct (e_ready e) eqn:Hr; [|reflexivity].
-    pose proof (run_comp_safe sites HHistory e start rs Hr) as [_ Hb]. congruence.
+    pose proof (run_comp_safe HHistory e start rs Hr) as [_ Hb]. congruence.
   - split; [|auto]. destruct (e_ready e) eqn:Hr; [|reflexivity].
-    pose proof (run_comp_safe sites HIbbIQ e start rs Hr) as [_ Hb]. congruence.
+    pose proof (run_comp_safe HIbbIQ e start rs Hr) as [_ Hb]. congruence.
   - exfalso. destruct c; try congruence;
-      try (match type of H with mem CBlocked (run_comp _ ?c0 _ _ _) = true =>
-             pose proof (run_comp_safe sites c0 e start rs eq_refl) as [_ Hb]; congruence end).
-    rewrite receipts_no_wedge in H. discriminate.
+      match type of H with mem CBlocked (run_comp ?c0 _ _ _) = true =>
+        pose proof (run_comp_safe c0 e start rs eq_refl) as [_ Hb]; congruence end.
 Qed.
